@@ -114,6 +114,7 @@ func checkC17(c *Ctx) {
 	for i := 0; i < c.pick(6, 30); i++ {
 		gs = append(gs, genSynGrammar(rng, c17Opts))
 	}
+	gs = append(gs, wideAlphabetSyn())
 	withLexGlue = true
 	defer func() { withLexGlue = false }()
 	for vi, fl := range [][]string{{"-a"}, {"-a", "-zip"}} {
@@ -342,4 +343,21 @@ func replayConcurrent(c *Ctx, r *Replay) (bool, string) {
 		}
 	}
 	return false, "scheduled traces equal sequential traces"
+}
+
+// wideAlphabetSyn: forty one-character terminals (every other character, so that no two classes
+// merge): the start state of the lexer has more classes than any table-size threshold a code
+// generator might switch strategies at; goroutines read different characters.
+func wideAlphabetSyn() *SynGrammar {
+	g := &SynGrammar{NTs: []string{"S", "X"}}
+	for _, r := range "acegikmoqsuwyACEGIKMOQSUWY02468+*/=<>(){}" {
+		g.Terms = append(g.Terms, string(r))
+		g.IsLit = append(g.IsLit, true)
+	}
+	g.Prods = append(g.Prods, SynProd{Head: 0, Body: []Sym{N(1)}, Action: "log"}, SynProd{Head: 0, Body: []Sym{N(0), N(1)}, Action: "log"})
+	for i := range g.Terms {
+		g.Prods = append(g.Prods, SynProd{Head: 1, Body: []Sym{T(i)}, Action: "log"})
+	}
+	g.normalize()
+	return g
 }
